@@ -156,6 +156,8 @@ def explore(ctx):
                                   classes=["identity", "scale", "shear", "mirror_x", "general_small"])
         for k, g in enumerate(desc["glyphs"]):
             g["unicodes"] = [0x61 + k]
+        # (a glyph with nothing in it but its advance: a filter that scales advances edits it like any other)
+        desc["glyphs"].append({"name": "space", "unicodes": [0x20], "width": Fr(300), "contours": [], "components": [], "anchors": []})
         names = [g["name"] for g in desc["glyphs"]]
         desc["kerning"] = {(names[0], names[1]): Fr(-30)}
         desc["groups"] = {"public.kern1.A": [names[0]], "public.kern2.B": [names[1]]}
@@ -173,8 +175,8 @@ def explore(ctx):
         flt = []
         if rng.random() < 0.5:
             flt.append({"name": "propagateAnchors", "pre": True})
-        if rng.random() < 0.3:
-            flt.append({"name": "transformations", "kwargs": {"OffsetX": 10, "ScaleY": 50}})
+        if rng.random() < 0.3 or i % 4 == 1:
+            flt.append({"name": "transformations", "kwargs": {"OffsetX": 10, "ScaleY": 50, "ScaleX": 80}})
         if rng.random() < 0.3:
             flt.append({"name": "decomposeTransformedComponents", "pre": True})
         if rng.random() < 0.2:
